@@ -369,7 +369,14 @@ impl<'a> LuaParser<'a> {
     }
 
     pub fn get_errors(&self) -> Vec<LuaParseError> {
-        self.errors.clone()
+        // error recovery can visit a token again and record the same problem a second time:
+        // keep the first report of each (range, kind, message)
+        let mut seen = std::collections::HashSet::new();
+        self.errors
+            .iter()
+            .filter(|err| seen.insert((err.range, err.kind.clone(), err.message.as_str())))
+            .cloned()
+            .collect()
     }
 }
 
